@@ -18,7 +18,7 @@ GROUP_NAMES = ["zeta", "alpha", "Beta", "10", "9", "g_1", "cellB", "cellA", "x",
 
 
 def make_world(seed, mode, n_groups):
-    w = world2.rich_world(seed, n_chroms=3, genes_per_chrom=3, reads_per_t=5, hidden_cov=4, multimappers=False, unmapped=2)
+    w = world2.rich_world(seed, n_chroms=3, genes_per_chrom=3, reads_per_t=5, hidden_cov=4, multimappers=False, unmapped=2, zoo=world2.ZOO_ALL)
     rng = w.rng
     groups = GROUP_NAMES[:n_groups]
     truth = {}
